@@ -46,6 +46,8 @@ SCEN = {
     'PushS': lambda inv=(): sc('MC_PushS', 4, 5, inv),
     'PushC': lambda inv=(): sc('MC_PushC', 5, 6, inv),
     'FrameS': lambda inv=(): sc('MC_FrameS', 4, 5, inv),
+    'BigC': lambda inv=(): sc('MC_BigC', 4, 5, inv),
+    'BigS': lambda inv=(): sc('MC_BigS', 4, 5, inv),
     'RawS': lambda inv=(): sc('MC_RawS', 3, 4, inv),
     'RawC': lambda inv=(): sc('MC_RawC', 3, 4, inv),
     'UpgPair': lambda inv=(): sc('MC_UpgPair', 6, 7, inv),
@@ -61,7 +63,7 @@ def scen(names, inv):
 PROPS = {
     'C01': {'scenarios': scen('Pair1', ['P_C01_DeliveredSendsAccepted', 'RaisingCallEmitsNothing']) + [sc('MC_Pair2', 5, 7, ['P_C01_DeliveredSendsAccepted', 'RaisingCallEmitsNothing'])],
             'lens': [(ALL_PUBLIC + ['z'], ANY)]},
-    'C02': {'scenarios': scen('Pair1 LifeS LifeC MiscC FrameS', ['P_C02_FramesWithinLimits', 'RaisingCallEmitsNothing']),
+    'C02': {'scenarios': scen('Pair1 LifeS LifeC MiscC FrameS BigC BigS', ['P_C02_FramesWithinLimits', 'RaisingCallEmitsNothing']),
             'lens': [(['o'], ANY), (['q.mof', 'z.hp'], ANY)]},
     'C03': {'scenarios': scen('FlowS SetC PushS', ['P_C03_SendWithinWindows', 'P_C03_WindowsBounded']),
             'lens': [(['q.lw', 'z.ow', 'z.streams.ow'], ANY), (['r', 'o'], S('call:data')), (['r', 'e'], S('frame:WU'))]},
@@ -116,7 +118,7 @@ PROPS = {
             'lens': [(['z.streams', 'z.closed', 'z.pend', 'z.hb'], ANY), (['r', 'o'], S('frame:HEADERS', 'frame:PP', 'frame:CONT', 'frame:RAW'))]},
     'C28': {'scenarios': [dict(s, hashseeds=True) for s in scen('Pair1 SetS MiscC HdrInS', [])],
             'lens': [(ALL_PUBLIC, ANY)]},
-    'C29': {'scenarios': scen('LifeS LifeC MiscC MiscS CloseS SetS FlowS', GENERIC),
+    'C29': {'scenarios': scen('LifeS LifeC MiscC MiscS CloseS SetS FlowS BigC BigS UpgS', GENERIC),
             'lens': [(['r', 'o'], S('call'))]},
 }
 
